@@ -191,7 +191,20 @@ def build_detector(d):
         else:
             wl = c["photon"]["wavelengths"]
             cube = np.stack([np.abs(arr_from({**c["photon"], "offset": c["photon"].get("offset", 0.0) + k}, rows, cols)) for k in range(len(wl))])
-            det.photon.array_3d = xr.DataArray(cube, dims=["wavelength", "y", "x"], coords={"wavelength": [float(w) for w in wl]})
+            coords = {"wavelength": [float(w) for w in wl]}
+            attrs = {}
+            extra = c["photon"].get("extra", [])
+            if "yx" in extra:  # pixel positions along y and x
+                coords["y"] = [2.5 * i for i in range(rows)]
+                coords["x"] = [10 + i for i in range(cols)]
+            if "scalar" in extra:  # a scalar coordinate
+                coords["exposure_id"] = 7
+            if "aux" in extra:  # a non-index coordinate along a dimension
+                coords["band"] = ("wavelength", [f"b{k}" for k in range(len(wl))])
+            if "attrs" in extra:
+                attrs = {"units": "ph/nm", "long_name": "Photon"}
+            det.photon.array_3d = xr.DataArray(cube, dims=["wavelength", "y", "x"], coords=coords, attrs=attrs,
+                                               name="photon" if "name" in extra else None)
     if c.get("pixel"):
         det.pixel.array = arr_from(c["pixel"], rows, cols)
     if c.get("signal"):
@@ -609,7 +622,8 @@ def gen_detector(rng, kind=None):
     p = 0.5
     if rng.random() < p:
         c["photon"] = ({"kind": "2d", **gen_arr(rng)} if rng.random() < 0.6 else
-                       {"kind": "3d", "wavelengths": rng.sample([400.0, 500.0, 650.0, 900.0], rng.choice([1, 2, 3])), **gen_arr(rng)})
+                       {"kind": "3d", "wavelengths": rng.sample([400.0, 500.0, 650.0, 900.0], rng.choice([1, 2, 3])),
+                        "extra": [x for x in ("yx", "scalar", "aux", "attrs", "name") if rng.random() < 0.4], **gen_arr(rng)})
     if rng.random() < p:
         c["pixel"] = gen_arr(rng)
     if rng.random() < p:
@@ -797,6 +811,8 @@ def body(ck: common.Check):
                 for k, v in impl["before"]["containers"].items():
                     if v is not None:
                         ck.count(f"{s}:container={k}" + ("/3d" if k == "photon" and "array_3d" in v else ""))
+                for x in (d["containers"].get("photon") or {}).get("extra", []):
+                    ck.count(f"{s}:photon-3d-extra={x}")
                 ck.count(f"{s}:setters-applied", len(impl.get("applied", [])))
                 if "after" in impl:
                     a = impl["after"]
@@ -864,7 +880,7 @@ def body(ck: common.Check):
     ck.rule = ("CCD / CMOS / MKID / APD detectors of 2-4 × 2-5 pixels with random valid properties (optional ones unset with p=0.25, "
                "three kinds of wavelength, APD built from each pair of gain / reset voltage / common voltage), 0-3 properties changed "
                "through their setters after construction, optionally emptied, each container initialised with p=0.5 (photon 2-D or "
-               "1-3 wavelengths, image of 4 dtypes, charge as array and/or 1-3 clusters, 0-2 scene sources, 0-2 data-tree nodes) plus "
+               "1-3 wavelengths with optional y/x, scalar and auxiliary coordinates, attributes and a name, image of 4 dtypes, charge as array and/or 1-3 clusters, 0-2 scene sources, 0-2 data-tree nodes) plus "
                "all 64 subsets of the six 2-D containers of an MKID; saved to ASDF, loaded, compared field by field; pipelines with "
                "load_detector in any of the 10 groups, 0-3 writers before, a snapshot probe after, 0-2 writers after, 16 % stored "
                "detectors of another type / shape, stored detectors with every / a random subset of the 2-D containers initialised, "
